@@ -37,3 +37,7 @@ package mathx
 //@   requires 0.0 <= u.deviation && u.deviation <= 1.0 && base >= 0
 //@   ensures  real(result) <= (1.0+u.deviation)*real(base) && real(result) > (1.0-u.deviation)*real(base) - 1.0 && result >= 0
 //@   modifies nothing
+//@ func NewUnstable
+//@   property C06
+//@   float real
+//@   ensures devOf(result) == min(max(deviation, 0.0), 1.0)
